@@ -87,7 +87,7 @@ theorem heapGrows_good : GoodRel HeapGrows where
 /-- function cells are immutable: once allocated, a function value denotes the same code and closure forever -/
 def FuncsStable (σ σ' : State) : Prop := ∀ a f, σ.getFunc a = some f → σ'.getFunc a = some f
 
-theorem getFunc_set_other (σ : State) (a b : Addr) (c : Cell) (f : FuncRec) (hb : σ.getFunc b = some f)
+theorem getFunc_set_keeps (σ : State) (a b : Addr) (c : Cell) (f : FuncRec) (hb : σ.getFunc b = some f)
     (hne : ∀ g, σ.getFunc a ≠ some g) : (σ.set a c).getFunc b = some f := by
   by_cases hab : a = b
   · subst hab; exact absurd hb (hne f)
@@ -120,17 +120,17 @@ theorem funcsStable_good : GoodRel FuncsStable where
   print := fun σ l a f h => h
   setList := by
     intro σ a xs ys hg b f hb
-    refine getFunc_set_other σ a b _ f hb (fun g hgf => ?_)
+    refine getFunc_set_keeps σ a b _ f hb (fun g hgf => ?_)
     unfold State.getList State.getFunc at *
     split at hg <;> simp_all
   setObj := by
     intro σ a m m' hg b f hb
-    refine getFunc_set_other σ a b _ f hb (fun g hgf => ?_)
+    refine getFunc_set_keeps σ a b _ f hb (fun g hgf => ?_)
     unfold State.getObj State.getFunc at *
     split at hg <;> simp_all
   setScope := by
     intro σ a m m' hg b f hb
-    refine getFunc_set_other σ a b _ f hb (fun g hgf => ?_)
+    refine getFunc_set_keeps σ a b _ f hb (fun g hgf => ?_)
     unfold State.getScope State.getFunc at *
     split at hg <;> simp_all
 
